@@ -433,12 +433,20 @@ class Radar:
         r.bind(('127.0.0.1', port))
         self.lsock = r
 
-    def close_conn(self):
+    def close_conn(self, rst=False):
         if self.conn is not None:
-            try:
-                self.conn.shutdown(socket.SHUT_RDWR)
-            except OSError:
-                pass
+            if rst:
+                # abortive close: SO_LINGER 0 makes close() send a RST instead of a FIN (the subject's read fails with
+                # ECONNRESET instead of returning end-of-stream)
+                try:
+                    self.conn.setsockopt(socket.SOL_SOCKET, socket.SO_LINGER, struct.pack('ii', 1, 0))
+                except OSError:
+                    pass
+            else:
+                try:
+                    self.conn.shutdown(socket.SHUT_RDWR)
+                except OSError:
+                    pass
             self.conn.close()
             self.conn = None
 
@@ -558,6 +566,10 @@ def run_radar(script):
             if a == 'timeout':
                 raise Machinery('radar never connected to the fake server')
             if a == 'ok':
+                if script.get('filler', False) and not rd.exited():
+                    # pacing traffic starts before the first draw is awaited: a subject that only draws when something
+                    # happens is then driven like any other, and is judged by the scripts that go silent
+                    rd.set_filler(True, [bytes.fromhex(h) for h in script.get('filler_cycle', [])] or None)
                 w = rd.wait_hb(2)
                 if w == 'timeout':
                     # slow machine, or a subject whose main loop does not turn without traffic? ask it to quit: a live
@@ -646,7 +658,7 @@ def run_radar(script):
                     break
             elif op == 'close':
                 rd.set_filler(False)
-                rd.close_conn()
+                rd.close_conn(rst=st.get('rst', False))
             elif op == 'accept':
                 a = rd.accept()
                 if a == 'timeout':
